@@ -20,6 +20,7 @@ pub enum Ev {
     Consume(u32),          // consume(own t)
     Make,                  // make() -> own
     Peek(u32),             // peek(borrow t)
+    ConsumeAll(u32, u32, usize), // consume-all(list of own): first two handles read from the list buffer, length
     ResNew(usize),         // [resource-new]counter(rep)
     ResRep(u32),           // [resource-rep]counter(handle)
 }
@@ -60,6 +61,14 @@ pub mod mockhost {
     pub unsafe fn verif_res_imp__consume(h: i32) { log(Ev::Consume(h as u32)) }
     pub unsafe fn verif_res_imp__make() -> i32 { log(Ev::Make); unsafe { ANSWER as i32 } }
     pub unsafe fn verif_res_imp__peek(h: i32) -> i32 { log(Ev::Peek(h as u32)); unsafe { ANSWER as i32 } }
+    /// list<own<thing>>: (pointer to 4-byte handle slots, length); lifting the list TRANSFERS every handle in it to the host
+    pub unsafe fn verif_res_imp__consume_all(p: *mut u8, len: usize) {
+        unsafe {
+            let h0 = if len >= 1 { core::ptr::read_unaligned(p.cast::<u32>()) } else { 0 };
+            let h1 = if len >= 2 { core::ptr::read_unaligned(p.add(4).cast::<u32>()) } else { 0 };
+            log(Ev::ConsumeAll(h0, h1, len));
+        }
+    }
     pub unsafe fn _export_verif_res_exp___resource_drop_counter(h: i32) { log(Ev::DropCounter(h as u32)) }
     pub unsafe fn _export_verif_res_exp___resource_new_counter(rep: *mut u8) -> i32 {
         log(Ev::ResNew(rep as usize));
@@ -293,5 +302,27 @@ mod proofs {
             drop(value);
             kani::assert(COUNTER_DROPS == 1, "the Rust value is destroyed exactly once");
         }
+    }
+
+    /// a LIST of owned handles passed to an import: every handle in it is transferred (the host lifts them out of the buffer),
+    /// so none of them may be dropped by the guest afterwards
+    #[kani::proof]
+    #[kani::unwind(10)]
+    pub fn c07_import_list_of_owned_handles_transferred_not_dropped() {
+        let (a, b) = (any_handle(), any_handle());
+        kani::assume(a != b);
+        let two: bool = kani::any();
+        unsafe {
+            let mut v: Vec<Thing> = Vec::new();
+            v.push(Thing::from_handle(a));
+            if two {
+                v.push(Thing::from_handle(b));
+            }
+            imp::consume_all(v);
+            kani::assert(count(|e| *e == Ev::ConsumeAll(a, if two { b } else { 0 }, if two { 2 } else { 1 })) == 1, "the handles are passed in the list buffer, in order, exactly once");
+            kani::assert(count(|e| matches!(e, Ev::DropThing(_))) == 0, "handles given away inside a list are not dropped by the guest");
+            kani::assert(logged() == 1, "nothing else crosses the boundary");
+        }
+        kani::cover!(two);
     }
 }
